@@ -714,6 +714,32 @@ def c08_dir_scope(res, pid, rng, tier):
                     used[idx] = s
         finally:
             shutil.rmtree(d, ignore_errors=True)
+    # a directory run whose first file holds more than 2^16 distinct secrets: the numbering goes on across the file boundary
+    dbig = tempfile.mkdtemp(prefix="ncverif_")
+    try:
+        nbig = 66000
+        os.makedirs(os.path.join(dbig, "in"))
+        with open(os.path.join(dbig, "in", "a-big.cfg"), "w") as f_:
+            for k_ in range(nbig):
+                f_.write("username u%d password 0 Sx%dqZ\n" % (k_, k_))
+        os.makedirs(os.path.join(dbig, "in", "z"))        # (files of a sub directory come after the files of the directory itself)
+        open(os.path.join(dbig, "in", "z", "b-next.cfg"), "w").write("username again password 0 Sx7qZ\nusername new1 password 0 NewSecretOneQ\nusername new2 password 0 NewSecretTwoQ\n")
+        with fa.LogCap():
+            anonymize_files(os.path.join(dbig, "in"), os.path.join(dbig, "out"), True, False, salt="big")
+        ob = open(os.path.join(dbig, "out", "z", "b-next.cfg")).read().split("\n")[:-1]
+        oa = open(os.path.join(dbig, "out", "a-big.cfg")).read().split("\n")[:-1]
+        res.evaluations += nbig + 3
+        r_again, r_n1, r_n2 = [l_.split(" ")[-1] for l_ in ob]
+        ra = [l_.split(" ")[-1] for l_ in oa]
+        # (the order in which the two files are processed is the file system's; the checks do not depend on it)
+        if r_again != ra[7] or len(set(ra)) != nbig or r_n1 == r_n2 or r_n1 in set(ra) or r_n2 in set(ra):
+            fails.append({"kind": "equal secrets received different replacements" if r_again != ra[7] else "different secrets received the same replacement",
+                          "detail": "directory run, one file with %d distinct secrets, another file repeats one of them and has two new ones" % nbig,
+                          "line_8_of_the_big_file": oa[7], "distinct_replacements_in_the_big_file": len(set(ra)), "other_file_output": ob})
+    except Exception as e:  # noqa
+        fails.append({"kind": "anonymize_io raised", "exc": repr(e)[:200], "detail": "big directory run"})
+    finally:
+        shutil.rmtree(dbig, ignore_errors=True)
     return [], fails
 
 
